@@ -966,9 +966,8 @@ class ArgumentParser(ParserDeprecations, ActionsContainer, ArgumentLinking, argp
                     elif isinstance(val, Path) and key in self.save_path_content and "r" in val.mode:
                         val_path = Path(os.path.basename(val.absolute), mode="fc")
                         check_overwrite(val_path)
-                        with open(val_path.absolute, "w") as f:
-                            f.write(val.get_content())
-                        cfg[key] = type(val)(str(val_path))
+                        writes.append((val_path.absolute, val.get_content()))
+                        cfg[key] = str(val_path)  # the file is written later, validation is skipped for the dump
 
             with change_to_path_dir(path_fc), parser_context(parent_parser=self):
                 save_paths(cfg)
